@@ -105,8 +105,9 @@ Lemma oracle_of_parts c out :
   can_report (c_filter c) && reports_ok (c_filter c) None (c_samples c) out = true ->
   oracle c out = true.
 Proof.
-  intros H. unfold oracle. destruct out as [|o [|o2 out]]; try exact H.
-  destruct o as [|p|p]; try exact H. destruct p; try exact H. reflexivity.
+  intros H. unfold oracle. destruct out as [|o out]; [exact H|].
+  destruct o as [|p|p]; try exact H. destruct p; try exact H.
+  destruct out; [reflexivity | exact H].
 Qed.
 
 Lemma validb_trigger c : valid c -> 0 <= f_trigger (c_filter c) <= 2.
